@@ -611,6 +611,9 @@ fn zoned_refs(r: &Report, level: u8) -> Vec<Rf> {
 // counters
 // ---------------------------------------------------------------------------
 
+/// outcome classes the non-vacuity requirements read back
+const REQ: [&str; 12] = ["ok", "exact", "moved", "tie_right", "refused_as_required", "ok_variable_unit", "ok_fractional", "compare_less", "compare_equal", "compare_greater", "arith_ok", "error_out_of_range"];
+
 #[derive(Default)]
 struct Loc {
     c: std::collections::BTreeMap<&'static str, u64>,
@@ -622,6 +625,9 @@ impl Loc {
     fn flush(self, r: &Report, prefix: &str) {
         for (k, v) in self.c {
             r.outcome(&format!("{}{}", prefix, k), v);
+            if REQ.contains(&k) {
+                r.count(&format!("{}{}", prefix, k), v);
+            }
         }
     }
 }
@@ -698,7 +704,7 @@ fn in_class(c: &RoundCase, s: usize, eff_l: usize, inc: i64) -> String {
     }
     let sc = if s < D { "time" } else { UN[s] };
     let mut out = format!("{},smallest={},{}", if c.sign < 0 { "negative-span" } else { "positive-span" }, sc, c.zclass);
-    if c.shadow && eff_l >= MO && s < MO {
+    if c.shadow && eff_l >= MO && s <= MO {
         out.push_str(",r+span-in-shadow-of-clamped-month-end");
     }
     if c.sign > 0 && s >= D && c.whole[s] {
@@ -885,17 +891,32 @@ fn neighbour(r: &Report, rf: &Rf, rz: Option<&Zoned>, rp: i128, g: &Sp, s: usize
         f[MO] = m as i64;
         return rf.point(r, &f);
     }
-    // day / week relative to a zoned datetime
-    let nf = g[s] as i128 + dir * inc as i128;
-    let others = (0..10).filter(|&u| u != s).map(|u| g[u].signum()).find(|&x| x != 0).unwrap_or(0) as i128;
-    if nf.abs() <= LIMITS[s] as i128 && (others == 0 || nf == 0 || nf.signum() == others) {
-        let mut f = *g;
-        f[s] = nf as i64;
-        return rf.point(r, &f);
+    // day / week relative to a zoned datetime: step the *civil* point
+    // civil(r) + calendar part of `rounded` by whole days and resolve it again
+    // (what `r + span'` means for the span' with the stepped field; written
+    // this way it also covers a span' that would need mixed signs)
+    let _ = (rz, rp);
+    let RfK::Zoned(z) = &rf.k else { return None };
+    if (0..D).any(|u| g[u] != 0) {
+        return None;
     }
-    let mut f = [0; 10];
-    f[s] = (dir * inc as i128) as i64;
-    zadd(r, rz?, &f).map(|z| conv::ts_ns(z.timestamp()))
+    let cal = try_span(g)?;
+    let step = (dir * inc as i128 * if s == W { 7 } else { 1 }) as i64;
+    if step.unsigned_abs() > LIMITS[D] as u64 {
+        return None;
+    }
+    let got = guard(|| -> Result<Zoned, jiff::Error> {
+        let dt = z.datetime().checked_add(cal)?.checked_add(Span::new().try_days(step)?)?;
+        z.time_zone().to_zoned(dt)
+    });
+    match got {
+        Ok(Ok(x)) => Some(conv::ts_ns(x.timestamp())),
+        Ok(Err(_)) => None,
+        Err(p) => {
+            r.viol("helper", &format!("civil-step/{}", panic_sig(&p)), format!("{} + {} step {}", z, fmt_sp(g), step), p);
+            None
+        }
+    }
 }
 
 #[allow(clippy::too_many_arguments)]
@@ -1105,11 +1126,15 @@ fn section_round(r: &Report, sec: &str, refs: &[Rf], pool: &[Sp]) {
 
 /// increments nobody may accept for time units (0, negative, the next unit's
 /// size, i64::MAX); for calendar units only "no panic" is demanded of <= 0
-fn section_bad_increment(r: &Report, refs: &[Rf], pool: &[Sp]) {
+fn section_bad_increment(r: &Report, refs: &[&Rf], pool: &[Sp]) {
     let sec = "round_bad_increment";
-    let items: Vec<(&Rf, &Sp)> = refs.iter().flat_map(|rf| pool.iter().map(move |f| (rf, f))).collect();
+    let items: Vec<(&Rf, &Sp)> = refs.iter().flat_map(|rf| pool.iter().map(move |f| (*rf, f))).collect();
     items.par_iter().for_each(|&(rf, f)| {
         let c = mk_case(r, rf, f);
+        if c.zfold {
+            // Zoned::until defects F8/F9 are reported by the other sections
+            return;
+        }
         let mut lc = Loc::default();
         let mut n = 0;
         for s in 0..10 {
@@ -1525,8 +1550,9 @@ fn main() {
     r.section("round_zoned", || section_round(&r, "round_zoned", &zrefs, &pool));
     r.section("round_bad_increment", || {
         let some: Vec<Sp> = sub.iter().copied().take(41).collect();
-        section_bad_increment(&r, &crefs, &some);
-        section_bad_increment(&r, &zrefs[..zrefs.len().min(12)], &some);
+        section_bad_increment(&r, &crefs.iter().collect::<Vec<_>>(), &some);
+        let zsome: Vec<&Rf> = zrefs.iter().filter(|x| !x.r_later).take(12).collect();
+        section_bad_increment(&r, &zsome, &some);
     });
     r.section("total", || section_total(&r, "total", &crefs, &pool));
     r.section("total_zoned", || section_total(&r, "total_zoned", &zrefs, &pool));
@@ -1539,6 +1565,14 @@ fn main() {
         section_to_duration(&r, &zrefs, &pool);
     });
 
+    let has = |k: &str| r.get_count(k) > 0;
+    r.require(has("round_noref:ok") && has("round_noref:refused_as_required") && has("round_noref:moved") && has("round_noref:exact"), "round without reference: accepted, refused, moved and exact results all observed");
+    r.require(has("round_civil:ok") && has("round_civil:tie_right") && has("round_civil:moved") && has("round_civil:exact") && has("round_civil:error_out_of_range"), "round relative to civil: exact, moved, ties judged and overflow errors all observed");
+    r.require(has("round_zoned:ok") && has("round_zoned:tie_right") && has("round_zoned:moved") && has("round_zoned:exact"), "round relative to zoned: exact, moved and ties judged all observed");
+    r.require(has("total:ok_variable_unit") && has("total:ok_fractional") && has("total_zoned:ok_variable_unit") && has("total:refused_as_required"), "total: variable units, fractional values and refusals observed");
+    r.require(has("pairs:compare_less") && has("pairs:compare_equal") && has("pairs:compare_greater") && has("pairs:arith_ok"), "compare: all three orderings; arithmetic: results checked");
+    r.require(has("to_duration:ok") && has("to_duration:refused_as_required"), "to_duration: values and refusals observed");
+    r.require(zrefs.iter().any(|x| x.r_later) && zrefs.iter().any(|x| !x.r_later) && r.get_count("zoned_ref_gaps") > 0 && r.get_count("zoned_ref_folds") > 0, "zoned references at gaps and folds, on both sides of a fold");
     r.note(format!(
         "alphabets: {} spans (singles at 1/carry-1/carry/carry+1/limit, exact-tie halves, 2-unit mixes just below a carry, fixed mixes; both signs); references: none, days-are-24h, {} civil dates/datetimes, {} zoned (latest recorded gap and fold of each zone at day-before, T-1ns, T, T+1ns, day-after, and both mid-fold instants); round: 10 smallest x (unset + every largest >= smallest) x 5 increments x 9 modes, plus every reversed pair once; total: 10 units; compare/checked_add/checked_sub: all ordered pairs of {} spans per reference; to_duration: whole pool",
         pool.len(),
